@@ -58,6 +58,13 @@ func c01GenCase(r *vc.Rand, idx int, kinds []string, prefix string) *atCase {
 		if grp.Explicit {
 			ns = 1 + r.Intn(3)
 		}
+		if g == 0 && grp.Explicit && r.Intn(3) == 0 {
+			// "insert, on duplicate key do something else": the local transaction goes on after a failed INSERT
+			grp.Stmts = append(grp.Stmts, atGenDuplicateInsert(r, t))
+			if ns < 2 {
+				ns = 2
+			}
+		}
 		for k := 0; k < ns; k++ {
 			o := atStmtOpts{params: r.Intn(4) != 0, rowsClass: []string{"1", "1", "many", "0"}[r.Intn(4)]}
 			choice := r.Intn(6)
